@@ -13,6 +13,7 @@ Definition in_tx (v : entry) : bool := match v with VTx | VTxStmt => true | _ =>
 Inductive case :=
 | CTx (cached : bool)                                (* through sqlc.CachedConn (true) or sqlx's conn (false) *)
       (sw : switches)                                (* sqlx log switches during the run *)
+      (cx : ctxstate) (bound : bool)                 (* state of the ctx given to TransactCtx; body uses XxxCtx(ctx) *)
       (f : faults) (b : body)                        (* driver faults, transaction body script *)
       (o_res : option err)                           (* observed: error returned by Transact/TransactCtx *)
       (o_calls : list call)                          (* observed: calls that reached the SQL driver *)
@@ -62,8 +63,9 @@ Definition run_query (rows_mode strict : bool) (sh : dshape) (cols : list string
 (* --- model agreement: the transcription reproduces the observation exactly --- *)
 Definition model_ok (c : case) : bool :=
   match c with
-  | CTx cached sw f b o_res o_calls o_escaped o_runs o_seen =>
-      let (r, cs) := if cached then cached_transact_ctx sw true f b else transact_ctx sw true f b in
+  | CTx cached sw cx bound f b o_res o_calls o_escaped o_runs o_seen =>
+      let (r, cs) := if cached then cached_transact_ctx_with sw true cx bound f b
+                     else transact_ctx_with sw true cx bound f b in
       option_eqb err_eqb r o_res && list_eqb call_eqb cs o_calls &&
       match o_escaped with None => true | Some _ => false end &&
       Nat.eqb o_runs (if cached then cached_transact_ctx_runs true f else transact_ctx_runs true f) &&
@@ -154,10 +156,11 @@ Definition spec_orm (rows_mode strict : bool) (sh : dshape) (cols : list string)
 
 Definition spec_ok (c : case) : bool :=
   match c with
-  | CTx cached sw f b o_res o_calls o_escaped o_runs o_seen =>
-      (* the outcome table, the body entered exactly once, through either wrapper and under every switch
+  | CTx cached sw cx bound f b o_res o_calls o_escaped o_runs o_seen =>
+      (* the outcome table (on the body as it runs under this ctx: only its own ctx-bound statements can be
+         refused; Begin/Commit/Rollback and the result never depend on the ctx), the body entered exactly once, through either wrapper and under every switch
          setting; every failing statement was reported to the body *)
-      tx_allowed f b o_res o_calls o_escaped o_runs && seen_ok o_calls o_seen
+      tx_allowed f (body_under_ctx cx bound b) o_res o_calls o_escaped o_runs && seen_ok o_calls o_seen
   | COrm via m sh cols rows o_status o_dest o_tx =>
       (* the row-mapping clauses hold on every entry point; strictness is the method name's *)
       spec_orm (rows_mode m) (spec_strict m) sh cols rows o_status o_dest &&
